@@ -58,3 +58,14 @@ for m in CORPUS:
         m.old = "        if right < tip_count:\n            p_right = mat_tips[..., right, :, :, partials[right]]\n        else:\n            p_right = mats[..., right, :, :, :] @ partials[right]\n\n        partials[node] = p_left * p_right"
         m.new = "        if left < tip_count:\n            p_right = mat_tips[..., right, :, :, partials[right]]\n        else:\n            p_right = mats[..., right, :, :, :] @ partials[right]\n\n        partials[node] = p_left * p_right"
         m.expect = [('C01.K', 'calculate_treelikelihood_tip_states_discrete::second-factor')]
+CORPUS += [
+    Mut('c01-site-likelihoods-clamped-before-the-log', 'torchtree/evolution/tree_likelihood.py', 'calculate_treelikelihood_discrete', 'return torch.sum(…',
+        'site_likelihoods = freqs @ torch.sum(props * partials[post_indexing[-1][0]], -3)\nsite_likelihoods = site_likelihoods.clamp(min=torch.finfo(site_likelihoods.dtype).tiny)\nreturn torch.sum(torch.log(site_likelihoods) * weights, -1)',
+        expect=[('C01.K', 'calculate_treelikelihood_discrete::log-of-the-site-likelihood-itself')]),
+    Mut('c01-benign-site-likelihoods-through-a-local', 'torchtree/evolution/tree_likelihood.py', 'calculate_treelikelihood_discrete', 'return torch.sum(…',
+        'site_likelihoods = freqs @ torch.sum(props * partials[post_indexing[-1][0]], -3)\nreturn torch.sum(torch.log(site_likelihoods) * weights, -1)', benign=True),
+    Mut('c01-branch-lengths-floored-in-the-accessor', 'torchtree/evolution/tree_model.py', 'UnRootedTreeModel.branch_lengths', 'return self._branch_lengths.tensor',
+        'return self._branch_lengths.tensor.clamp(min=1e-06)', expect=[('C01.B', 'UnRootedTreeModel.branch_lengths::returns-the-parameter-values')]),
+    Mut('c01-benign-branch-lengths-returned-contiguous', 'torchtree/evolution/tree_model.py', 'UnRootedTreeModel.branch_lengths', 'return self._branch_lengths.tensor',
+        'return self._branch_lengths.tensor.contiguous()', benign=True),
+]
